@@ -59,6 +59,18 @@ func newEngine(p *Program) *Engine {
 			return []Val{{Typ: types.Typ[types.Int], T: x.intFromMath(t)}}
 		},
 	}
+	// parseIntValue(s, base) / parseIntOK(s, base): the uninterpreted text->number functions behind strconv.ParseInt
+	e.ghostFuncs["parseIntValue"] = func(x *Exec, st *State, e *ast.CallExpr) []Val {
+		s := x.expr(st, e.Args[0])
+		b := x.expr(st, e.Args[1])
+		i64 := types.Typ[types.Int64]
+		return []Val{{Typ: i64, T: x.uninterp("uf_parseint_val_"+x.mode, x.scalarSort(i64), s.T, b.T)}}
+	}
+	e.ghostFuncs["parseIntOK"] = func(x *Exec, st *State, e *ast.CallExpr) []Val {
+		s := x.expr(st, e.Args[0])
+		b := x.expr(st, e.Args[1])
+		return []Val{{Typ: types.Typ[types.Bool], T: x.uninterp("uf_parseint_ok_"+x.mode, SBool, s.T, b.T)}}
+	}
 	registerGhostIO(e)
 	return e
 }
